@@ -103,7 +103,7 @@ bool checkTree(const std::vector<Node>& nodes, bool rev, bool degenerateInput, s
   return true;
 }
 
-Verdict judgeImpl(const Case& c, bool gp) {
+Verdict judgeImpl(const Case& c, bool gp, bool strictRect = false) {
   Verdict v;
   const Paths64& subj = c.P("subj");
   const Paths64& clip = c.P("clip");
@@ -142,6 +142,7 @@ Verdict judgeImpl(const Case& c, bool gp) {
       }
     }
     ST.count(degenerateInput ? "rect_input_degenerate" : "rect_input_nondegenerate");
+    (void)strictRect;
   }
   bool useD = m <= (int64_t(1) << 50) && c.I("useD", 1);
   int maxLevel = 0;
@@ -216,6 +217,7 @@ Verdict judgeImpl(const Case& c, bool gp) {
 }
 Verdict judgeGp(const Case& c) { return judgeImpl(c, true); }
 Verdict judgeRect(const Case& c) { return judgeImpl(c, false); }
+Verdict judgeRectPlain(const Case& c) { return judgeImpl(c, false, true); }
 
 Case genGp() {
   Case c;
@@ -263,6 +265,24 @@ Case genRect() {
   return c;
 }
 
+// sets of plain rectangles on a small lattice: many shared lines, touching and overlapping edges, nesting
+Case genRectPlain() {
+  Case c;
+  int64_t g = G::range(3, 8), step = G::oneOf(std::vector<int64_t>{2, 2, 10, 1000});
+  int n = (int)G::range(2, 6);
+  Paths64 subj, clip;
+  for (int k = 0; k < n; ++k) {
+    int64_t x0 = G::range(0, g - 1), x1 = G::range(x0 + 1, g), y0 = G::range(0, g - 1), y1 = G::range(y0 + 1, g);
+    if (k == 0 && G::chance(60)) { x0 = 0; y0 = 0; x1 = g; y1 = g; }  // an enclosing rectangle makes nesting likely
+    Path64 p = {Point64(x0 * step, y0 * step), Point64(x1 * step, y0 * step), Point64(x1 * step, y1 * step), Point64(x0 * step, y1 * step)};
+    if (G::coin()) std::reverse(p.begin(), p.end());
+    (k == 0 || G::chance(65) ? subj : clip).push_back(p);
+  }
+  c.p["subj"] = subj;
+  c.p["clip"] = clip;
+  return c;
+}
+
 // rectangles whose x's and y's are pairwise distinct even numbers: rectilinear but free of coincidences
 Case genRectDistinct() {
   Case c;
@@ -293,5 +313,6 @@ int main(int argc, char** argv) {
   H.parts.push_back({"gp", genGp, judgeGp, nullptr, true});
   H.parts.push_back({"rect", genRect, judgeRect, nullptr, true});
   H.parts.push_back({"rectdistinct", genRectDistinct, judgeRect, nullptr, true});
+  H.parts.push_back({"rectplain", genRectPlain, judgeRectPlain, nullptr, true});
   return harnessMain(argc, argv, H);
 }
